@@ -648,14 +648,38 @@ def binop(I, op, l, r, inplace):
 
 
 def format_sym(fmt, arg):
-    """`fmt % arg` with symbolic arguments."""
+    """`fmt % arg` with symbolic arguments: literal text and %d %s %X %x %o %% directives."""
     if isinstance(fmt, str):
         return '<formatted>'
-    args = arg if isinstance(arg, tuple) else (arg,)
-    if fmt in (b'%d', b'%X', b'%o', b'%x') and len(args) == 1 and isinstance(args[0], (SInt, SBool)):
-        return int_to_digits(args[0], {b'%d': 10, b'%X': 16, b'%x': 16, b'%o': 8}[fmt],
-                             upper=(fmt == b'%X'))
-    raise Unsupported('bytes %%-format with symbolic arguments: %r' % (fmt,))
+    args = list(arg) if isinstance(arg, tuple) else [arg]
+    out = SBuf([], 'bytes')
+    i = 0
+    n = len(fmt)
+    while i < n:
+        c = fmt[i:i+1]
+        if c != b'%':
+            out = out + c
+            i += 1
+            continue
+        d = fmt[i+1:i+2]
+        i += 2
+        if d == b'%':
+            out = out + b'%'
+            continue
+        if d not in (b'd', b's', b'X', b'x', b'o') or not args:
+            raise Unsupported('bytes %%-format with symbolic arguments: %r' % (fmt,))
+        a = args.pop(0)
+        if d == b's':
+            if not isinstance(a, (bytes, bytearray, SBuf)):
+                raise Unsupported('%%s of a non-bytes value')
+            out = out + a
+        elif isinstance(a, (SInt, SBool)):
+            out = out + int_to_digits(a, {b'd': 10, b'X': 16, b'x': 16, b'o': 8}[d], upper=(d != b'x'))
+        else:
+            out = out + ((b'%' + d) % a)
+    if args:
+        raise TypeError('not all arguments converted during bytes formatting')
+    return out
 
 
 def int_to_digits(v, base, upper=True):
